@@ -147,6 +147,31 @@ static void fill(T& v, const Tree& t) {
 }
 static void fill(double& v, const Tree& t) { if (t.k != Tree::Dbl) throw BadValue{}; std::memcpy(&v, &t.bits, 8); }
 static void fill(std::string& v, const Tree& t) { if (t.k != Tree::Str) throw BadValue{}; v = t.s; }
+// the driver's own UTF-8 <-> UTF-16/32 (not the library's): values are valid UTF-8 by construction
+static std::vector<uint32_t> cps_of_utf8(const std::string& s) {
+	std::vector<uint32_t> r;
+	for (size_t i = 0; i < s.size();) {
+		unsigned char c = s[i];
+		int n = c < 0x80 ? 1 : c < 0xE0 ? 2 : c < 0xF0 ? 3 : 4;
+		uint32_t v = n == 1 ? c : n == 2 ? (c & 0x1F) : n == 3 ? (c & 0x0F) : (c & 0x07);
+		for (int k = 1; k < n && i + k < s.size(); ++k) v = (v << 6) | (static_cast<unsigned char>(s[i + k]) & 0x3F);
+		r.push_back(v); i += n;
+	}
+	return r;
+}
+template <class TStr> static void fill_wide(TStr& v, const Tree& t) {
+	if (t.k != Tree::Str) throw BadValue{};
+	v.clear();
+	for (uint32_t c : cps_of_utf8(t.s)) {
+		if (sizeof(typename TStr::value_type) == 2 && c >= 0x10000) {
+			v.push_back(static_cast<typename TStr::value_type>(0xD800 + ((c - 0x10000) >> 10)));
+			v.push_back(static_cast<typename TStr::value_type>(0xDC00 + ((c - 0x10000) & 0x3FF)));
+		} else v.push_back(static_cast<typename TStr::value_type>(c));
+	}
+}
+static void fill(std::u16string& v, const Tree& t) { fill_wide(v, t); }
+static void fill(std::u32string& v, const Tree& t) { fill_wide(v, t); }
+static void fill(std::wstring& v, const Tree& t) { fill_wide(v, t); }
 static void fill(Inner& v, const Tree& t);
 static void fill(Mix& v, const Tree& t);
 static void fill(Attr& v, const Tree& t);
@@ -191,6 +216,29 @@ template <class T, std::enable_if_t<std::is_integral_v<T> && !std::is_same_v<T, 
 static std::string dump(const T& v) { return "i" + std::to_string(v); }
 static std::string dump(const double& v) { uint64_t b; std::memcpy(&b, &v, 8); char buf[32]; std::snprintf(buf, sizeof buf, "d%016llx", (unsigned long long)b); return buf; }
 static std::string dump(const std::string& v) { return "s" + hexs(v); }
+// wide strings are shown as the UTF-8 of their code units read as UTF-16 / UTF-32 (a lone surrogate or a value above
+// 0x10FFFF is shown as an over-long / out-of-range UTF-8-style sequence, never matching a valid expectation)
+template <class TStr> static std::string dump_wide(const TStr& v) {
+	std::string r;
+	auto put = [&r](uint32_t c) {
+		if (c < 0x80) r.push_back((char)c);
+		else if (c < 0x800) { r.push_back((char)(0xC0 | (c >> 6))); r.push_back((char)(0x80 | (c & 0x3F))); }
+		else if (c < 0x10000) { r.push_back((char)(0xE0 | (c >> 12))); r.push_back((char)(0x80 | ((c >> 6) & 0x3F))); r.push_back((char)(0x80 | (c & 0x3F))); }
+		else { r.push_back((char)(0xF0 | ((c >> 18) & 0x07))); r.push_back((char)(0x80 | ((c >> 12) & 0x3F))); r.push_back((char)(0x80 | ((c >> 6) & 0x3F))); r.push_back((char)(0x80 | (c & 0x3F))); }
+	};
+	for (size_t i = 0; i < v.size(); ++i) {
+		uint32_t c = static_cast<uint32_t>(v[i]);
+		if (sizeof(typename TStr::value_type) == 2 && c >= 0xD800 && c <= 0xDBFF && i + 1 < v.size()) {
+			uint32_t d = static_cast<uint32_t>(v[i + 1]);
+			if (d >= 0xDC00 && d <= 0xDFFF) { put(0x10000 + ((c - 0xD800) << 10) + (d - 0xDC00)); ++i; continue; }
+		}
+		put(c);
+	}
+	return "s" + hexs(r);
+}
+static std::string dump(const std::u16string& v) { return dump_wide(v); }
+static std::string dump(const std::u32string& v) { return dump_wide(v); }
+static std::string dump(const std::wstring& v) { return dump_wide(v); }
 static std::string dump(const Inner& v);
 static std::string dump(const Mix& v);
 static std::string dump(const Attr& v);
@@ -280,7 +328,8 @@ template <class F> static std::string guarded(F f) {
 // ------------------------------------------------------------------ typed operations
 template <class TArchive, class T> constexpr bool supported() {
 	constexpr bool is_xml = std::is_same_v<TArchive, XmlArchive>;
-	constexpr bool scalar = std::is_fundamental_v<T> || std::is_same_v<T, std::nullptr_t> || std::is_same_v<T, std::string>;
+	constexpr bool scalar = std::is_fundamental_v<T> || std::is_same_v<T, std::nullptr_t> || std::is_same_v<T, std::string> ||
+		std::is_same_v<T, std::u16string> || std::is_same_v<T, std::u32string> || std::is_same_v<T, std::wstring>;
 	if (is_xml) return !scalar;            // the XML root scope serialises arrays and objects only
 	return !is_attr<T>::value;             // attributes exist in XML only
 }
@@ -392,6 +441,11 @@ static std::string run_arch(const std::vector<std::string>& t) {
 	case 34: return run_typed<TArchive, std::vector<Attr>>(t);
 	case 35: return run_typed<TArchive, AttrOnly>(t);
 	case 36: return run_typed<TArchive, std::vector<AttrOnly>>(t);
+	case 37: return run_typed<TArchive, std::u16string>(t);
+	case 38: return run_typed<TArchive, std::u32string>(t);
+	case 39: return run_typed<TArchive, std::wstring>(t);
+	case 40: return run_typed<TArchive, std::vector<std::u16string>>(t);
+	case 41: return run_typed<TArchive, std::map<std::string, std::u32string>>(t);
 	default: return "BAD-TYPE";
 	}
 }
